@@ -336,6 +336,29 @@ def eval_with_spec(f, spec: TableSpec, val: dict, free: dict[str, bool]):
     raise AnalysisError(f"bad formula {f!r}")
 
 
+def compile_formula(f, spec: TableSpec):
+    """Closure evaluating formula f under (valuation, free): matcher lookups are resolved once."""
+    k = f[0]
+    if k == "atom":
+        m = spec.match(f[1])
+        if m is not None:
+            return lambda val, free, m=m: bool(m(val))
+        name = f[1]
+        return lambda val, free, name=name: free[name]
+    if k == "const":
+        c = f[1]
+        return lambda val, free, c=c: c
+    if k == "not":
+        g = compile_formula(f[1], spec)
+        return lambda val, free, g=g: not g(val, free)
+    if k in ("and", "or"):
+        gs = [compile_formula(x, spec) for x in f[1]]
+        if k == "and":
+            return lambda val, free, gs=gs: all(g(val, free) for g in gs)
+        return lambda val, free, gs=gs: any(g(val, free) for g in gs)
+    raise AnalysisError(f"bad formula {f!r}")
+
+
 def unknown_atoms(f, spec: TableSpec) -> list[str]:
     return [a for a in norm.atoms_of(f) if spec.match(a) is None]
 
@@ -350,6 +373,7 @@ def table_rule(ctx: Ctx, rule: str, fref: str, views: list[PathView], spec: Tabl
     outcome must equal reference(valuation).
     """
     rows_checked = 0
+    all_vals = list(spec.valuations())
     mismatches: list[dict] = []
     covered: dict[tuple, set] = {}
     for view in views:
@@ -375,10 +399,12 @@ def table_rule(ctx: Ctx, rule: str, fref: str, views: list[PathView], spec: Tabl
                     ignored.append(a)
         if len(free_names) > max_free:
             raise AnalysisError(f"{fref}: too many atoms unknown to the reference table on one path: {free_names}")
-        for val in spec.valuations():
-            for bits in itertools.product((False, True), repeat=len(free_names) + len(ignored)):
-                free = dict(zip(free_names + ignored, bits))
-                if not all(eval_with_spec(c, spec, val, free) for c in conds):
+        compiled = [compile_formula(c, spec) for c in conds]
+        free_space = [dict(zip(free_names + ignored, bits))
+                      for bits in itertools.product((False, True), repeat=len(free_names) + len(ignored))]
+        for val in all_vals:
+            for free in free_space:
+                if not all(g(val, free) for g in compiled):
                     continue
                 rows_checked += 1
                 got = outcome_of(view, val, free)
@@ -393,10 +419,10 @@ def table_rule(ctx: Ctx, rule: str, fref: str, views: list[PathView], spec: Tabl
                         "extracted": repr(got),
                         "path": view.path.describe(),
                     })
-    uncovered = [dict(val) for val in spec.valuations()
+    uncovered = [dict(val) for val in all_vals
                  if tuple(sorted(val.items(), key=lambda kv: kv[0])) not in covered]
     ok = not mismatches and not uncovered
-    facts = {"rows_checked": rows_checked, "valuations": sum(1 for _ in spec.valuations()),
+    facts = {"rows_checked": rows_checked, "valuations": len(all_vals),
              "paths": len(views)}
     msg = ""
     if mismatches:
